@@ -339,6 +339,10 @@ func (s *Service) onHealth(w http.ResponseWriter, r *http.Request) {
 // Occurs when a message is received from a peer.
 func (s *Service) onPeerMessage(m *message.Message) {
 	defer s.measurer.MeasureElapsed("peer.msg", time.Now())
+	if !m.ID.IsValid() {
+		return // Malformed message from a peer, there is no channel to deliver it to
+	}
+
 	size, n := len(m.Payload), 0
 	filter := func(s message.Subscriber) bool {
 		return s.Type() == message.SubscriberDirect // only local subscribers
